@@ -89,6 +89,217 @@ def str_set(e):
     raise Decline("set of strings: " + ast.dump(e)[:80])
 
 
+# ---------------------------------------------------------------------------------------------
+# C12: the statements of the loaders that touch mutable containers, as programs of coq/Model/HeapOps.v
+
+MUTATORS = {"pop", "update", "append", "setdefault", "clear", "remove", "insert", "extend", "sort", "reverse",
+            "popitem", "add", "discard", "__setitem__", "__delitem__", "difference_update", "intersection_update",
+            "symmetric_difference_update"}
+PURE_CALLS = {"copy", "tuple", "list", "dict", "set", "frozenset", "int", "float", "complex", "str", "bytes", "bool", "repr",
+              "isinstance", "len", "map", "filter", "sorted", "enumerate", "zip", "range", "iter", "next", "getattr", "hasattr",
+              "literal_eval", "b64decode", "b64encode", "isinf", "isnan", "cast", "fields", "is_dataclass", "replace", "type",
+              "ValueError", "NotImplementedError", "TypeError", "print", "any", "all", "sum", "min", "max", "hash", "id"}
+
+
+class HeapTranslator(object):
+    def __init__(self, local_functions):
+        self.local = set(local_functions)
+        self.vars = {}
+
+    def var(self, name):
+        if name not in self.vars:
+            self.vars[name] = len(self.vars)
+        return self.vars[name]
+
+    def base_name(self, e):
+        while isinstance(e, (ast.Subscript, ast.Attribute, ast.Starred)):
+            e = e.value
+        if isinstance(e, ast.Call) and isinstance(e.func, ast.Attribute):
+            return self.base_name(e.func.value)
+        return e.id if isinstance(e, ast.Name) else None
+
+    def calls(self, node):
+        """mutations hidden in the calls of an expression / statement"""
+        ops = []
+        for n in ast.walk(node):
+            if isinstance(n, (ast.FunctionDef, ast.Lambda, ast.AsyncFunctionDef, ast.NamedExpr if hasattr(ast, "NamedExpr") else ast.Lambda)) and n is not node:
+                if not isinstance(n, ast.Lambda):
+                    raise Decline("nested function / walrus")
+            if isinstance(n, ast.Call):
+                f = n.func
+                if isinstance(f, ast.Attribute):
+                    b = self.base_name(f.value)
+                    if f.attr in MUTATORS and b is not None:
+                        ops.append("HMutate %d" % self.var(b))
+                elif isinstance(f, ast.Name):
+                    known = f.id in PURE_CALLS or f.id in self.local or f.id[:1].isupper()
+                    if not known:
+                        for a in list(n.args) + [k.value for k in n.keywords]:
+                            b = self.base_name(a)
+                            if b is not None:
+                                ops.append("HMutate %d" % self.var(b))
+                else:
+                    raise Decline("call of a computed function")
+        return ops
+
+    def assign(self, name, e):
+        x = self.var(name)
+        if isinstance(e, ast.Name):
+            return ["HAlias %d %d" % (x, self.var(e.id))]
+        if isinstance(e, ast.Call) and isinstance(e.func, ast.Name) and (
+                e.func.id in PURE_CALLS or e.func.id in self.local or e.func.id[:1].isupper()):
+            return ["HFresh %d" % x]
+        if isinstance(e, (ast.Dict, ast.List, ast.Set, ast.Tuple, ast.ListComp, ast.DictComp, ast.SetComp, ast.GeneratorExp,
+                          ast.Constant, ast.JoinedStr, ast.BinOp, ast.Compare, ast.UnaryOp)):
+            return ["HFresh %d" % x]
+        # subscripts, attributes, method calls, conditional / boolean expressions: may be an object of the input
+        return ["HGet %d %d" % (x, x)]
+
+    def block(self, stmts):
+        ops = []
+        for st in stmts:
+            ops += self.stmt(st)
+        return ops
+
+    def stmt(self, st):
+        if isinstance(st, (ast.Pass, ast.Import, ast.ImportFrom, ast.Break, ast.Continue)):
+            return []
+        if isinstance(st, ast.Expr):
+            return self.calls(st)
+        if isinstance(st, (ast.Return, ast.Raise, ast.Assert)):
+            return self.calls(st)
+        if isinstance(st, ast.Assign):
+            ops = self.calls(st.value)
+            for t in st.targets:
+                if isinstance(t, ast.Name):
+                    ops += self.assign(t.id, st.value)
+                elif isinstance(t, (ast.Subscript, ast.Attribute)):
+                    b = self.base_name(t)
+                    if b is None:
+                        raise Decline("assignment through a computed object")
+                    ops.append("HMutate %d" % self.var(b))
+                elif isinstance(t, (ast.Tuple, ast.List)):
+                    for el in t.elts:
+                        if isinstance(el, ast.Name):
+                            ops.append("HGet %d %d" % (self.var(el.id), self.var(el.id)))
+                        else:
+                            b = self.base_name(el)
+                            if b is None:
+                                raise Decline("assignment target")
+                            ops.append("HMutate %d" % self.var(b))
+                else:
+                    raise Decline("assignment target")
+            return ops
+        if isinstance(st, ast.AnnAssign):
+            if st.value is None:
+                return []
+            return self.stmt(ast.Assign(targets=[st.target], value=st.value))
+        if isinstance(st, ast.AugAssign):
+            b = self.base_name(st.target)
+            if b is None:
+                raise Decline("augmented assignment target")
+            return self.calls(st.value) + ["HMutate %d" % self.var(b)]
+        if isinstance(st, ast.Delete):
+            ops = []
+            for t in st.targets:
+                if isinstance(t, ast.Name):
+                    continue
+                b = self.base_name(t)
+                if b is None:
+                    raise Decline("del target")
+                ops.append("HMutate %d" % self.var(b))
+            return ops
+        if isinstance(st, ast.If):
+            return self.calls(st.test) + ["HIf %s %s" % (self.render(self.block(st.body)), self.render(self.block(st.orelse)))]
+        if isinstance(st, (ast.For, ast.While)):
+            pre = self.calls(st.iter if isinstance(st, ast.For) else st.test)
+            body = []
+            if isinstance(st, ast.For):
+                for n in ast.walk(st.target):
+                    if isinstance(n, ast.Name):
+                        body.append("HGet %d %d" % (self.var(n.id), self.var(n.id)))
+            body += self.block(st.body)
+            return pre + ["HLoop %s" % self.render(body)] + self.block(st.orelse)
+        if isinstance(st, ast.Try):
+            ops = ["HIf %s []" % self.render(self.block(st.body))]
+            for h in st.handlers:
+                ops.append("HIf %s []" % self.render(self.block(h.body)))
+            ops.append("HIf %s []" % self.render(self.block(st.orelse)))
+            return ops + self.block(st.finalbody)
+        if isinstance(st, ast.With):
+            ops = []
+            for it in st.items:
+                ops += self.calls(it.context_expr)
+                if it.optional_vars is not None:
+                    for n in ast.walk(it.optional_vars):
+                        if isinstance(n, ast.Name):
+                            ops.append("HGet %d %d" % (self.var(n.id), self.var(n.id)))
+            return ops + self.block(st.body)
+        raise Decline("statement " + type(st).__name__)
+
+    @staticmethod
+    def render(ops):
+        return "[" + "; ".join(ops) + "]" if ops else "[]"
+
+
+def heap_programs(repo, files):
+    """[(module.function, n_params, rendered program or None, note)]"""
+    out = []
+    trees = []
+    names = []
+    for rel in files:
+        try:
+            with open(os.path.join(repo, "code_data", rel)) as f:
+                tree = ast.parse(f.read())
+        except (OSError, SyntaxError) as e:
+            out.append((rel, 0, None, "declined: %s" % e))
+            continue
+        trees.append((rel, tree))
+        # every function translated here is itself checked with its parameters as input objects,
+        # so a call to one of them cannot mutate what it is given
+        names += [n.name for n in tree.body if isinstance(n, ast.FunctionDef)]
+    for rel, tree in trees:
+        fns = [n for n in tree.body if isinstance(n, ast.FunctionDef)]
+        for fn in fns:
+            tr = HeapTranslator(names)
+            try:
+                a = fn.args
+                params = [x.arg for x in getattr(a, "posonlyargs", []) + a.args + a.kwonlyargs] + (
+                    [a.vararg.arg] if a.vararg else []) + ([a.kwarg.arg] if a.kwarg else [])
+                for pn in params:
+                    tr.var(pn)
+                body = [s2 for s2 in fn.body]
+                prog = tr.render(tr.block(body))
+                out.append(("%s.%s" % (rel[:-3], fn.name), len(params), prog, "translated"))
+            except Decline as e:
+                out.append(("%s.%s" % (rel[:-3], fn.name), 0, None, "declined: %s" % e))
+    return out
+
+
+def generate_heap(repo, outpath):
+    from common import write_if_changed
+    progs = heap_programs(repo, ["_json_data.py", "_normalize.py", "dataclass_hide_default.py"])
+    lines = ["(* generated by harness/translate_src.py from /repo/code_data on every run; do not edit.\n"
+             "   One program of Model/HeapOps.v per function: which statements allocate, alias, read from or mutate\n"
+             "   containers; parameters are variables 0..n-1. *)\n"
+             "From Coq Require Import List.\nImport ListNotations.\nFrom PCD Require Import Model.HeapOps.\n"]
+    items = []
+    notes = {}
+    for name, nparams, prog, note in progs:
+        notes[name] = note
+        if prog is None:
+            lines.append("(* %s: %s *)" % (name, note))
+            continue
+        ident = "prog_" + name.replace(".", "_")
+        lines.append("Definition %s : list var * list hop := (%s, %s)." % (
+            ident, "[" + "; ".join(str(i) for i in range(nparams)) + "]", prog))
+        items.append(ident)
+    lines.append("Definition loader_programs : list (list var * list hop) := [%s]." % "; ".join(items))
+    lines.append("Definition loader_programs_declined : nat := %d." % sum(1 for _, _, p2, _ in progs if p2 is None))
+    notes["changed"] = write_if_changed(outpath, "\n".join(lines) + "\n")
+    return notes
+
+
 def generate(repo, outpath):
     from common import write_if_changed
     notes = {}
